@@ -114,6 +114,9 @@ def run(out, tier, seed):
             cases.append(dict(c, id=len(cases), mode="api"))
         if c["src"] != "tlc-exhaustive" or rng.random() < 0.2:
             cases.append(dict(c, id=len(cases), mode="ovprobe"))
+    for c in cases:
+        if c["mode"] in ("probe", "ovprobe") and rng.random() < 0.33:
+            c["genexit"] = True
     run_staged(out, tier, seed, rng, work)
     traces = L.run_histories(cases, work, driver="harness.drivers.gen_driver")
     fails, results = L.validate(traces, work, spec="TraceGen")
